@@ -19,7 +19,7 @@ pub fn plan_summary(p: &Plan) -> serde_json::Value {
             Step::Seal(_) => seals += 1,
             Step::Restart => restarts += 1,
             Step::Empty(n) => seals += *n as usize,
-            Step::Teleport(_) | Step::Admit(_) | Step::Include(_) => {}
+            Step::Teleport(_) | Step::TeleportTo(_) | Step::Admit(_) | Step::Include(_) => {}
         }
     }
     json!({"net_sel": p.cfg.net, "steps": p.steps.len(), "batches": batches, "planned_txs": txs, "seals": seals, "restarts": restarts})
@@ -64,4 +64,98 @@ pub fn replay_two_phase<M: Monitor>(case: &serde_json::Value, p1: &Profile, p2: 
         Some(inner) => replay_history(inner, p2, m),
         None => replay_history(case, p1, m),
     }
+}
+
+/// A generated plan that first travels to a height sampled anywhere below 2 000 000 (to the TIP-906 barrier first
+/// where there is one, across it honestly, then the random jump), so that rules tied to a window of heights that is
+/// not an activation height are met now and then.
+pub fn arb_plan_at_random_height(p: &Profile) -> impl proptest::strategy::Strategy<Value = Plan> {
+    use proptest::prelude::*;
+    (arb_plan(p), any::<u32>(), any::<u32>(), any::<bool>()).prop_map(|(mut plan, h1, h2, twice)| {
+        let mut pre = vec![Step::Seal(None), Step::Teleport(0), Step::Seal(None), Step::Seal(None), Step::TeleportTo(h1), Step::Seal(None)];
+        if twice {
+            pre.push(Step::TeleportTo(h2));
+            pre.push(Step::Seal(None));
+        }
+        pre.extend(plan.steps.drain(..));
+        plan.steps = pre;
+        plan
+    })
+}
+
+/// run_histories with another plan strategy; cases are tagged as second-phase plans (replay with `replay_two_phase`)
+pub fn run_histories_with<M, F, S, MkS>(ctx: &Ctx, phase: &str, profile: Profile, cases: u32, mk_strategy: MkS, mk: F) -> Outcome
+where
+    M: Monitor,
+    F: Fn() -> M + Sync,
+    S: proptest::strategy::Strategy<Value = Plan>,
+    MkS: Fn(&Profile) -> S + Sync,
+{
+    let prof = profile.clone();
+    run_sharded(
+        ctx,
+        phase,
+        cases,
+        move || {
+            use proptest::strategy::Strategy;
+            mk_strategy(&prof).prop_map(|p| Phase2 { phase2: p })
+        },
+        |plan: &Phase2, st: &mut Stats, shard| {
+            st.eval();
+            let mut m = mk();
+            run_plan(&plan.phase2, &profile, &mut m, st, shard)
+        },
+    )
+}
+
+/// A plan of the sampled-heights phase (mainnet/testnet-heavy profile, see `sampled_profile`).
+#[derive(Clone, Debug, serde::Serialize, serde::Deserialize)]
+pub struct Sampled {
+    pub sampled: Plan,
+}
+
+/// The base profile turned towards the networks whose rules depend on the height, with height jumps enabled.
+pub fn sampled_profile(base: &Profile) -> Profile {
+    let mut p = base.clone();
+    p.p_teleport = p.p_teleport.max(1);
+    p.net_w = [10, 5, 45, 40, 0, 0, 0, 0, 0];
+    p.max_steps = p.max_steps.min(10);
+    p.warp = false;
+    p.start_past_legacy = false;
+    p.past_legacy_half = false;
+    p.start_in_legacy_window = false;
+    p
+}
+
+/// Histories that first travel to a height sampled anywhere below 2 000 000, judged by the same monitor.
+pub fn run_sampled_heights<M, F>(ctx: &Ctx, base: &Profile, cases: u32, mk: F) -> Outcome
+where
+    M: Monitor,
+    F: Fn() -> M + Sync,
+{
+    let profile = sampled_profile(base);
+    let prof = profile.clone();
+    run_sharded(
+        ctx,
+        "histories-at-sampled-heights",
+        cases,
+        move || {
+            use proptest::strategy::Strategy;
+            arb_plan_at_random_height(&prof).prop_map(|p| Sampled { sampled: p })
+        },
+        |plan: &Sampled, st: &mut Stats, shard| {
+            st.eval();
+            st.class("history-at-sampled-height");
+            let mut m = mk();
+            run_plan(&plan.sampled, &profile, &mut m, st, shard)
+        },
+    )
+}
+
+/// Replays a case of any phase: plain plan (first phase, `p1`), `phase2` (under `p2`), `sampled` (sampled-heights profile of `p1`).
+pub fn replay_any<M: Monitor>(case: &serde_json::Value, p1: &Profile, p2: &Profile, m: M) -> Check {
+    if let Some(inner) = case.get("sampled") {
+        return replay_history(inner, &sampled_profile(p1), m);
+    }
+    replay_two_phase(case, p1, p2, m)
 }
